@@ -166,7 +166,8 @@ CountRes(V, q, lim) == PageLen(Cardinality(Matching(V, q)), 0, lim)
 
 \* the documents a write by query selects (the first lim in order); Determined: the property fixes the selection
 Selected(V, q, ob, lim) ==
-  LET S == SortBy(V, Matching(V, q), ob) IN {S[p] : p \in 1..PageLen(Len(S), 0, lim)}
+  IF lim = 0 THEN Matching(V, q)
+  ELSE LET S == SortBy(V, Matching(V, q), ob) IN {S[p] : p \in 1..PageLen(Len(S), 0, lim)}
 Determined(V, q, ob, lim) ==
   LET S == SortBy(V, Matching(V, q), ob) IN
   \* (IF, not a disjunction: a disjunction inside an action is a choice for TLC and every branch is evaluated)
@@ -217,6 +218,8 @@ StOf(decl, ixs, dd) ==
       ix |-> SetSeq(ixs),
       docs |-> [id \in 1..Len(dd) |-> [live |-> id \in L, n |-> Len(dd[id]), vals |-> dd[id][Len(dd[id])].vals,
                                         stamp |-> dd[id][Len(dd[id])].stamp]],
+      \* declared fields whose stored column differs from the content for some live document (pinned AddField)
+      stale |-> SelectSeq(ds, LAMBDA f : \E id \in L : dd[id][Len(dd[id])].cols[f] # V[id][f]),
       atoms |-> [j \in 1..Len(ds) |->
                    [f |-> ds[j],
                     lt |-> [c \in 1..(NVals(ds[j]) + 1) |-> SortInts({id \in L : V[id][ds[j]] < c - 1})],
@@ -286,17 +289,18 @@ SimIndex(o) == LET f1 == At(FieldSeq, R(o + 1)) IN
 CreateIndex(o) ==
   /\ created /\ CanStep
   /\ \E x \in (IF Sim THEN {SimIndex(o)} ELSE IndexChoices) :
+     \E exists \in {\E y \in indexes : y.fs = x.fs} :
+     \E want \in {~exists /\ (x.uq => DesignEmpty)} :
+     \E ok \in {~exists /\ (x.uq => IF UniqueQuirk THEN CodeEmpty ELSE DesignEmpty)} :
+     \E dup \in {\E a, b \in LiveIds : a # b /\ KeyOf(ContentView[a], x.fs) = KeyOf(ContentView[b], x.fs)} :
        /\ \A j \in 1..Len(x.fs) : x.fs[j] \in declared
-       /\ LET exists == \E y \in indexes : y.fs = x.fs
-              want == ~exists /\ (x.uq => DesignEmpty)
-              ok == ~exists /\ (x.uq => IF UniqueQuirk THEN CodeEmpty ELSE DesignEmpty)
-          IN IF ok
-             THEN /\ indexes' = indexes \cup {x}
-                  /\ ix' = ix \cup EntriesOf(ColsView, LiveIds, {x})
-                  /\ UNCHANGED <<created, declared, docs, wlog, stampc, nfail>>
-                  /\ Log([op |-> "createindex", ixd |-> x, ok |-> TRUE, want |-> want])
-             ELSE /\ Reject /\ SchemaSame /\ DataSame
-                  /\ LogSame([op |-> "createindex", ixd |-> x, ok |-> FALSE, want |-> want])
+       /\ IF ok
+          THEN /\ indexes' = indexes \cup {x}
+               /\ ix' = ix \cup EntriesOf(ColsView, LiveIds, {x})
+               /\ UNCHANGED <<created, declared, docs, wlog, stampc, nfail>>
+               /\ Log([op |-> "createindex", ixd |-> x, ok |-> TRUE, want |-> want, exists |-> exists, dup |-> dup])
+          ELSE /\ Reject /\ SchemaSame /\ DataSame
+               /\ LogSame([op |-> "createindex", ixd |-> x, ok |-> FALSE, want |-> want, exists |-> exists, dup |-> dup])
 
 DeleteIndex(o) ==
   /\ created /\ CanStep /\ indexes # {}
@@ -345,76 +349,99 @@ DelRev == [del |-> TRUE, vals |-> NoVals, stamp |-> 0, cols |-> NoCols]
 Insert(o) ==
   /\ created /\ CanStep /\ Len(docs) < MaxDocs
   /\ \E v \in (IF Sim THEN {SimVals(o)} ELSE {x \in ValChoices : OkVals(x)}) :
-       LET c == Extract(v, declared)
-           want == DesignUniqueOK(ContentView, LiveIds, c, 0)
-           ok == IF UniqueQuirk THEN CodeUniqueOK(c) ELSE want
-           id == Len(docs) + 1
-       IN IF ok
-          THEN /\ docs' = Append(docs, <<NewRev(v, stampc + 1)>>)
-               /\ ix' = ix \cup {[fs |-> x.fs, k |-> KeyOf(c, x.fs), id |-> id] : x \in indexes}
-               /\ wlog' = Append(wlog, [id |-> id, stamp |-> stampc + 1])
-               /\ stampc' = stampc + 1
-               /\ SchemaSame /\ UNCHANGED nfail
-               /\ Log([op |-> "insert", vals |-> v, stamp |-> stampc + 1, ok |-> TRUE, want |-> want, id |-> id])
-          ELSE /\ Reject /\ SchemaSame /\ DataSame
-               /\ LogSame([op |-> "insert", vals |-> v, stamp |-> stampc + 1, ok |-> FALSE, want |-> want, id |-> 0])
+     \E c \in {Extract(v, declared)} :
+     \E want \in {DesignUniqueOK(ContentView, LiveIds, c, 0)} :
+     \E ok \in {IF UniqueQuirk THEN CodeUniqueOK(c) ELSE want} :
+     \E id \in {Len(docs) + 1} :
+       IF ok
+       THEN /\ docs' = Append(docs, <<NewRev(v, stampc + 1)>>)
+            /\ ix' = ix \cup {[fs |-> x.fs, k |-> KeyOf(c, x.fs), id |-> id] : x \in indexes}
+            /\ wlog' = Append(wlog, [id |-> id, stamp |-> stampc + 1])
+            /\ stampc' = stampc + 1
+            /\ SchemaSame /\ UNCHANGED nfail
+            /\ Log([op |-> "insert", vals |-> v, stamp |-> stampc + 1, ok |-> TRUE, want |-> want, id |-> id])
+       ELSE /\ Reject /\ SchemaSame /\ DataSame
+            /\ LogSame([op |-> "insert", vals |-> v, stamp |-> stampc + 1, ok |-> FALSE, want |-> want, id |-> 0])
 
 \* ReplaceDocuments(query, doc): every selected document gets a new revision with the content of doc.
 \* byid > 0: doc carries the id of document byid, the comparison _id = byid is added to every AND group.
 WithId(q, byid) == IF byid = 0 THEN q
                    ELSE IF q = <<>> THEN << <<[f |-> "_id", op |-> "EQ", c |-> byid]>> >>
                    ELSE [g \in 1..Len(q) |-> <<[f |-> "_id", op |-> "EQ", c |-> byid]>> \o q[g]]
+\* model checking: one representative (query, order, limit) per selectable set of documents
+McTriples == {[q |-> q, lim |-> 0, ob |-> <<>>] : q \in McQueries}
+             \cup {[q |-> q, lim |-> 1, ob |-> ob] : q \in McQueries, ob \in McOrders}
+McUsable == {t \in McTriples : /\ Matching(ContentView, t.q) # {}
+                                /\ Determined(ContentView, t.q, t.ob, t.lim)
+                                /\ Selected(ColsView, t.q, t.ob, t.lim) = Selected(ContentView, t.q, t.ob, t.lim)}
+
+\* (TLC neither caches LET definitions nor operator arguments at the action level: every value that is used more
+\* than once is bound by "\E x \in {expression}", which evaluates the expression once)
+ReplaceDo(q, lim, ob, byid, v, q2, S, SS, c, want, e) ==
+  /\ Determined(ContentView, q2, ob, lim)
+  /\ Selected(ColsView, q2, ob, lim) = S            \* the stored columns select the same documents
+  /\ \A id \in S : Len(docs[id]) < MaxRevs
+  /\ IF S = {}
+     THEN /\ SchemaSame /\ DataSame /\ UNCHANGED nfail      \* nothing selected: nothing written
+          /\ LogSame(e @@ [ok |-> TRUE, sel |-> <<>>, revs |-> <<>>])
+     ELSE IF want
+     THEN /\ docs' = [id \in Ids |-> IF id \in S THEN Append(docs[id], NewRev(v, stampc + 1)) ELSE docs[id]]
+          /\ ix' = {y \in ix : y.id \notin S}
+                   \cup {[fs |-> x.fs, k |-> KeyOf(c, x.fs), id |-> id] : x \in indexes, id \in S}
+          /\ wlog' = wlog \o [p \in 1..Len(SS) |-> [id |-> SS[p], stamp |-> stampc + 1]]
+          /\ stampc' = stampc + 1
+          /\ SchemaSame /\ UNCHANGED nfail
+          /\ Log(e @@ [ok |-> TRUE, sel |-> SS, revs |-> [p \in 1..Len(SS) |-> <<SS[p], Len(docs[SS[p]]) + 1>>]])
+     ELSE /\ Reject /\ SchemaSame /\ DataSame
+          /\ LogSame(e @@ [ok |-> FALSE, sel |-> SS, revs |-> <<>>])
+ReplaceStep(q, lim, ob, byid, v) ==
+  \E q2 \in {WithId(q, byid)} :
+  \E S \in {Selected(ContentView, q2, ob, lim)} :
+  \E SS \in {SortInts(S)} :
+  \E c \in {Extract(v, declared)} :
+  \* uniqueness of the result: the replaced documents all get the same key
+  \E want \in {DesignUniqueOK(ContentView, LiveIds \ S, c, 0) /\ (Cardinality(S) > 1 => ~\E x \in indexes : x.uq)} :
+  \E e \in {[op |-> "replace", q |-> q, ob |-> ob, lim |-> lim, byid |-> byid, vals |-> v, stamp |-> stampc + 1]} :
+    ReplaceDo(q, lim, ob, byid, v, q2, S, SS, c, want, e)
+McPick(U, S) == CHOOSE x \in U : Selected(ContentView, x.q, x.ob, x.lim) = S
 Replace(o) ==
   /\ created /\ CanStep
-  /\ \E v \in (IF Sim THEN {SimVals(o)} ELSE {x \in ValChoices : OkVals(x)}) :
-     \E q \in (IF Sim THEN {SimQuery(o + 8)} ELSE McQueries) :
-     \E lim \in (IF Sim THEN {IF Chance(o, 50, 3) THEN 1 + (R(o + 51) % 2) ELSE 0} ELSE {0, 1}) :
-     \E ob \in (IF Sim THEN {SimOrder(o + 40)} ELSE IF lim = 0 THEN {<<>>} ELSE McOrders) :
-     \E byid \in (IF Sim THEN {IF Len(docs) > 0 /\ Chance(o, 52, 4) THEN 1 + (R(o + 53) % Len(docs)) ELSE 0} ELSE {0}) :
-       LET q2 == WithId(q, byid)
-           S == Selected(ContentView, q2, ob, lim)
-           c == Extract(v, declared)
-           \* uniqueness of the result: the replaced documents all get the same key
-           want == /\ DesignUniqueOK(ContentView, LiveIds \ S, c, 0)
-                   /\ (Cardinality(S) > 1 => ~\E x \in indexes : x.uq)
-       IN /\ Determined(ContentView, q2, ob, lim)
-          /\ Selected(ColsView, q2, ob, lim) = S            \* the stored columns select the same documents
-          /\ \A id \in S : Len(docs[id]) < MaxRevs
-          /\ (IF Sim THEN TRUE ELSE S # {})
-          /\ IF S = {}
-             THEN /\ SchemaSame /\ DataSame /\ UNCHANGED nfail      \* nothing selected: nothing written
-                  /\ LogSame([op |-> "replace", q |-> q, ob |-> ob, lim |-> lim, byid |-> byid, vals |-> v, stamp |-> stampc + 1,
-                              ok |-> TRUE, revs |-> <<>>])
-             ELSE IF want
-             THEN /\ docs' = [id \in Ids |-> IF id \in S THEN Append(docs[id], NewRev(v, stampc + 1)) ELSE docs[id]]
-                  /\ ix' = {e \in ix : e.id \notin S} \cup {[fs |-> x.fs, k |-> KeyOf(c, x.fs), id |-> id] : x \in indexes, id \in S}
-                  /\ wlog' = wlog \o [p \in 1..Cardinality(S) |-> [id |-> SortInts(S)[p], stamp |-> stampc + 1]]
-                  /\ stampc' = stampc + 1
-                  /\ SchemaSame /\ UNCHANGED nfail
-                  /\ Log([op |-> "replace", q |-> q, ob |-> ob, lim |-> lim, byid |-> byid, vals |-> v, stamp |-> stampc + 1,
-                          ok |-> TRUE, revs |-> [p \in 1..Cardinality(S) |-> <<SortInts(S)[p], Len(docs[SortInts(S)[p]]) + 1>>]])
-             ELSE /\ Reject /\ SchemaSame /\ DataSame
-                  /\ LogSame([op |-> "replace", q |-> q, ob |-> ob, lim |-> lim, byid |-> byid, vals |-> v, stamp |-> stampc + 1,
-                              ok |-> FALSE, revs |-> <<>>])
+  /\ IF Sim
+     THEN \E q \in {SimQuery(o + 8)} :
+          \E lim \in {IF Chance(o, 50, 3) THEN 1 + (R(o + 51) % 2) ELSE 0} :
+          \E ob \in {SimOrder(o + 40)} :
+          \E byid \in {IF Len(docs) > 0 /\ Chance(o, 52, 4) THEN 1 + (R(o + 53) % Len(docs)) ELSE 0} :
+          \E v \in {SimVals(o)} : ReplaceStep(q, lim, ob, byid, v)
+     ELSE \E U \in {McUsable} :
+          \E S \in {Selected(ContentView, t.q, t.ob, t.lim) : t \in U} :
+          \E t \in {McPick(U, S)} :
+          \E v \in {x \in ValChoices : OkVals(x)} : ReplaceStep(t.q, t.lim, t.ob, 0, v)
 
+DeleteDo(q, lim, ob, S, SS) ==
+  /\ Determined(ContentView, q, ob, lim)
+  /\ Selected(ColsView, q, ob, lim) = S
+  /\ \A id \in S : Len(docs[id]) < MaxRevs
+  /\ docs' = [id \in Ids |-> IF id \in S THEN Append(docs[id], DelRev) ELSE docs[id]]
+  /\ ix' = {y \in ix : y.id \notin S}
+  /\ wlog' = wlog \o [p \in 1..Len(SS) |-> [id |-> SS[p], stamp |-> 0]]
+  /\ SchemaSame /\ UNCHANGED <<stampc, nfail>>
+  /\ Log([op |-> "delete", q |-> q, ob |-> ob, lim |-> lim, ok |-> TRUE, ids |-> SS])
+DeleteStep(q, lim, ob) ==
+  \E S \in {Selected(ContentView, q, ob, lim)} : \E SS \in {SortInts(S)} : DeleteDo(q, lim, ob, S, SS)
 Delete(o) ==
   /\ created /\ CanStep
-  /\ \E q \in (IF Sim THEN {SimQuery(o + 8)} ELSE McQueries) :
-     \E lim \in (IF Sim THEN {IF Chance(o, 50, 2) THEN 1 + (R(o + 51) % 2) ELSE 0} ELSE {0, 1}) :
-     \E ob \in (IF Sim THEN {SimOrder(o + 40)} ELSE IF lim = 0 THEN {<<>>} ELSE McOrders) :
-       LET S == Selected(ContentView, q, ob, lim)
-       IN /\ Determined(ContentView, q, ob, lim)
-          /\ Selected(ColsView, q, ob, lim) = S
-          /\ (IF Sim THEN TRUE ELSE S # {})
-          /\ \A id \in S : Len(docs[id]) < MaxRevs
-          /\ docs' = [id \in Ids |-> IF id \in S THEN Append(docs[id], DelRev) ELSE docs[id]]
-          /\ ix' = {e \in ix : e.id \notin S}
-          /\ wlog' = wlog \o [p \in 1..Cardinality(S) |-> [id |-> SortInts(S)[p], stamp |-> 0]]
-          /\ SchemaSame /\ UNCHANGED <<stampc, nfail>>
-          /\ Log([op |-> "delete", q |-> q, ob |-> ob, lim |-> lim, ok |-> TRUE, ids |-> SortInts(S)])
+  /\ IF Sim
+     THEN \E q \in {SimQuery(o + 8)} :
+          \E lim \in {IF Chance(o, 50, 2) THEN 1 + (R(o + 51) % 2) ELSE 0} :
+          \E ob \in {SimOrder(o + 40)} :
+            /\ (IF q # <<>> THEN TRUE ELSE IF lim > 0 THEN TRUE ELSE Chance(o, 60, 4))
+            /\ DeleteStep(q, lim, ob)
+     ELSE \E U \in {McUsable} :
+          \E S \in {Selected(ContentView, t.q, t.ob, t.lim) : t \in U} :
+          \E t \in {McPick(U, S)} : DeleteStep(t.q, t.lim, t.ob)
 
 Reopen ==
-  /\ created /\ CanStep /\ Sim
+  /\ created /\ CanStep /\ Sim /\ Chance(0, 70, 3)
   /\ SchemaSame /\ DataSame /\ UNCHANGED nfail
   /\ LogSame([op |-> "reopen", ok |-> TRUE])
 
@@ -422,31 +449,30 @@ Reopen ==
 (* reads as actions (simulation): expected result from the contents, cres from the stored columns              *)
 Search(o) ==
   /\ ReadOps /\ created /\ CanStep
-  /\ LET q == SimQuery(o + 8)
-         ob == SimOrder(o + 40)
-         off == IF Chance(o, 50, 3) THEN 1 + (R(o + 51) % 2) ELSE 0
-         lim == IF Chance(o, 52, 2) THEN 1 + (R(o + 53) % 3) ELSE 0
-         res == SearchRes(ContentView, q, ob, off, lim)
-         cres == SearchRes(ColsView, q, ob, off, lim)
-     IN LogSame([op |-> "search", q |-> q, ob |-> ob, off |-> off, lim |-> lim, ok |-> TRUE, res |-> res,
-                 count |-> CountRes(ContentView, q, lim), total |-> Cardinality(Matching(ContentView, q)),
-                 same |-> (res = cres /\ CountRes(ColsView, q, lim) = CountRes(ContentView, q, lim))])
+  /\ \E q \in {SimQuery(o + 8)} :
+     \E ob \in {SimOrder(o + 40)} :
+     \E off \in {IF Chance(o, 50, 3) THEN 1 + (R(o + 51) % 2) ELSE 0} :
+     \E lim \in {IF Chance(o, 52, 2) THEN 1 + (R(o + 53) % 3) ELSE 0} :
+     \E res \in {SearchRes(ContentView, q, ob, off, lim)} :
+       LogSame([op |-> "search", q |-> q, ob |-> ob, off |-> off, lim |-> lim, ok |-> TRUE, res |-> res,
+                count |-> CountRes(ContentView, q, lim), total |-> Cardinality(Matching(ContentView, q)),
+                same |-> (res = SearchRes(ColsView, q, ob, off, lim) /\ CountRes(ColsView, q, lim) = CountRes(ContentView, q, lim))])
   /\ SchemaSame /\ DataSame /\ UNCHANGED nfail
 
 Audit(o) ==
   /\ ReadOps /\ created /\ CanStep /\ Len(docs) > 0
-  /\ LET id == 1 + (R(o + 1) % Len(docs))
-         desc == Chance(o, 2, 2)
-         off == R(o + 3) % 3
-         lim == 1 + (R(o + 4) % 3)
-     IN LogSame([op |-> "audit", id |-> id, desc |-> desc, off |-> off, lim |-> lim, ok |-> TRUE,
-                 res |-> AuditRes(id, desc, off, lim)])
+  /\ \E id \in {1 + (R(o + 1) % Len(docs))} :
+     \E desc \in {Chance(o, 2, 2)} :
+     \E off \in {R(o + 3) % 3} :
+     \E lim \in {1 + (R(o + 4) % 3)} :
+       LogSame([op |-> "audit", id |-> id, desc |-> desc, off |-> off, lim |-> lim, ok |-> TRUE,
+                res |-> AuditRes(id, desc, off, lim)])
   /\ SchemaSame /\ DataSame /\ UNCHANGED nfail
 
 GetById(o) ==
   /\ ReadOps /\ created /\ CanStep /\ Len(docs) > 0
-  /\ LET id == 1 + (R(o + 1) % (Len(docs) + 1))
-     IN LogSame([op |-> "get", id |-> id, ok |-> TRUE, res |-> GetRes(id)])
+  /\ \E id \in {1 + (R(o + 1) % (Len(docs) + 1))} :
+       LogSame([op |-> "get", id |-> id, ok |-> TRUE, res |-> GetRes(id)])
   /\ SchemaSame /\ DataSame /\ UNCHANGED nfail
 
 Next == \/ CreateCollection(0) \/ AddField(0) \/ RemoveField(3) \/ CreateIndex(6) \/ DeleteIndex(10)
